@@ -22,6 +22,10 @@ def _ops_entry(pid, theorems, focus):
     )
 
 PROPS = {
+    "C01": _ops_entry("C01", ["C01_inflight_implies_allocated", "C01_addresses_stable",
+                              "C01_reachable_states_well_formed"], "drops and completions"),
+    "C06": _ops_entry("C06", ["C06_drop_cancels_exactly_it", "C06_cancel_targets_only_dropped",
+                              "C06_state_freed_at_most_once", "C06_dropped_state_is_reclaimed"], "drops"),
     "C05": dict(
         driver="C05",
         model="Model/CqRing.v",
